@@ -11,7 +11,7 @@ def verdict(r):
 
 def search(tier, seed):
     """Implementation-only oracle. Returns (n_cases, violation or None, samples, distinct)."""
-    n_pref = 60 if tier == "quick" else 1500
+    n_pref = 200 if tier == "quick" else 3000
     n_stab = 4000 if tier == "quick" else 100000
     total = 0
     seen = set()
